@@ -20,7 +20,7 @@ REQUIRED = [
     "fact_page_size", "fact_iblt_buckets", "fact_shelves", "fact_load_empty_resets", "fact_rollback_reload_context",
     "fact_add_tx_options", "fact_comparisons", "fact_call_structure", "fact_wiring", "fact_check_page_conditions",
     "fact_diagnostics", "diagnostics_spec", "save_failure_is_rolled_back", "fact_add_critical_section",
-    "rollback_reload_race_defect_before_fix", "repair_restores_last_page_on_boundary", "fact_add_write_steps", "fact_add_mutex_spans_rollback_reload", "partial_update_is_rolled_back",
+    "rollback_reload_race_defect_before_fix", "repair_restores_last_page_on_boundary", "fact_add_write_steps", "fact_add_mutex_spans_rollback_reload", "fact_check_page_is_one_write_transaction", "repair_atomic_wrt_add", "partial_update_is_rolled_back",
     "store_fault_at_any_put",
 ]
 
